@@ -40,6 +40,12 @@ Theorem C07_slice_slots_inside_working_array : forall n cap idx, (0 < cap)%nat -
 Proof. exact caps_in_bounds. Qed.
 Print Assumptions C07_slice_slots_inside_working_array.
 
+(* slice.go as the translator read it: the slot of every element beyond the destination's own is cleared before the
+   element decoder runs, and newSlice copies exactly the destination's len elements over the pooled array (Model/SlicePool.v
+   is a reading of these statements) *)
+Theorem C07_slice_source_facts : (forall i, slice_clears i = true) /\ slice_pool_as_modelled = true.
+Proof. split; [intro i|]; reflexivity. Qed.
+
 (* and no element of the result comes from anywhere but the document and the destination's own elements *)
 Theorem C07_slice_reads_only_destination_and_document : forall (A E : Type) (zero : A) (decE : E -> A -> option A) pool dst dcap es,
   (length dst <= dcap)%nat ->
